@@ -60,7 +60,7 @@ void thread_entry_1() { do_locker<1>(); }
 #if NT > 2
 #ifdef INTERRUPTER
 // environment actor: interrupts thread 1 at an arbitrary point of its acquisition protocol
-void thread_entry_2() { thread_interrupt(K_thread(1), EINTR); finished[2] = true; }
+void thread_entry_2() { thread_interrupt(K_thread(1), nondet_bool() ? EINTR : -1); finished[2] = true; }   // -1 is the reason an unlock hand-off uses: a public caller may send it too
 #else
 void thread_entry_2() { do_locker<2>(); }
 #endif
